@@ -484,6 +484,8 @@ func leftmostIndexes(e ast.Expr) bool {
 //	"array-length-starts-with-index-expression"  `type T [a[0]]int`: go/parser >= 1.18 takes `[a[` for a type parameter list
 //	"ellipsis-array-field"  a named parameter/result/receiver/field whose type is `[...]T` (go/parser >= 1.18 rejects it
 //	                        while parsing the parameter/field; the go1.10-era fork leaves it to the type checker)
+//	"import-statement"      an import declaration accepted as a statement inside a function body or block
+//	                        (parseStmt patch "allow imports inside statements. useful for ~quote and ~quasiquote")
 func ForkTreeClass(nodes []ast.Node) string {
 	cls := ""
 	for _, n := range nodes {
@@ -492,6 +494,10 @@ func ForkTreeClass(nodes []ast.Node) string {
 		}
 		ast.Inspect(n, func(x ast.Node) bool {
 			switch x := x.(type) {
+			case *ast.DeclStmt:
+				if gd, ok := x.Decl.(*ast.GenDecl); ok && gd.Tok == token.IMPORT && cls == "" {
+					cls = "import-statement"
+				}
 			case *ast.UnaryExpr:
 				if x.Op > token.TILDE {
 					cls = "expr-block"
